@@ -91,25 +91,25 @@ CLAIMS = {
 
 # rules added after the independent seeding rounds (DESIGN.md §9.7); appended to the "decides" text
 ADDENDA = {
- "C01": "Also: size9p special-cases exactly the (pointer/value) forms of Rstat/Twstat that encode does; encode returns only its write steps' errors (a refusal only for unrepresentable lengths); Marshal's bytes live in a buffer created by that call; no error on these paths is dropped.",
- "C02": "Also: the Tread clamp wrap-aware (every wrap case of the uint32 arithmetic); size9p/encode agreement per type and special case (codec-grammar rules); every exit of WriteFcall after a successful sendmsg has passed Flush; Overflow(err)/overflowErr.Size() expose exactly the recorded excess.",
- "C03": "Also: len(rdbuf)==msize invariant of newChannel/SetMSize; the Tread clause of maybeTruncate (inbound clamp, wrap-aware); decoded payloads are read into fresh storage (codec-grammar rules); Overflow exposure.",
- "C04": "Also: every loop on the decode path is counted or consumes input on every iteration (termination); decode mirrors encode per type (stability, layout half).",
+ "C01": "Also: size9p special-cases exactly the (pointer/value) forms of Rstat/Twstat that encode does; encode returns only its write steps' errors (a refusal only for unrepresentable lengths); Marshal's bytes live in a buffer created by that call; no error on these paths is dropped. A failed encode/decode step never continues to a success return (error-gates-success); the stat-record helpers DecodeDir/EncodeDir size and slice their buffers without wrapping.",
+ "C02": "Also: the Tread clamp wrap-aware (every wrap case of the uint32 arithmetic); size9p/encode agreement per type and special case (codec-grammar rules); every exit of WriteFcall after a successful sendmsg has passed Flush; Overflow(err)/overflowErr.Size() expose exactly the recorded excess. The marshalled bytes are not shared between calls (marshal-fresh); overflow errors built by constructor helpers report size - msize.",
+ "C03": "Also: len(rdbuf)==msize invariant of newChannel/SetMSize; the Tread clause of maybeTruncate (inbound clamp, wrap-aware); decoded payloads are read into fresh storage (codec-grammar rules); Overflow exposure. channel.conn/brd/bwr are set once, by the constructor; a failed read step never continues to a success return.",
+ "C04": "Also: every loop on the decode path is counted or consumes input on every iteration (termination); decode mirrors encode per type (stability, layout half). A failed decode step never continues to a success return: a sentinel error let through by the test is accepted only where it ends a sequence whose partial element is a dropped local.",
  "C05": "Also: each reply frame and each request record (with its two buffered channels) is created for that frame/call; the non-error reply is returned only on the Type != Rerror edge.",
- "C06": "Also: the handler runs under the request's own WithCancel context; each dispatcher clause calls its Session method on every path (no pre-filtering); the data of an Rread is a buffer made for that request; error replies carry err.Error() or the Rerror itself (also through helpers).",
- "C07": "Also: the handler runs under the request's own cancellable context (the one whose cancel func is in the tag table).",
- "C08": "Also: a fid's File is recorded only after the producing call is known to have succeeded; no reservation is left in the table and no fid lock is still held when an operation returns.",
- "C09": "Also evaluates the C05 and C06 rule sets, buffered reply channels, the write-failure rules, the ReadFcall rules (a frame of exactly msize is accepted), reply typing in every client method, the codec-grammar rules and the fresh-reply-buffer rule.",
- "C10": "Also: the write-side partition and the read-side overflow/frame rules (shared with C02/C03); the server answers its own msize only on an edge implying ch.MSize() <= the client's proposal; the client's SetMSize rules also through extracted helpers.",
+ "C06": "Also: the handler runs under the request's own WithCancel context; each dispatcher clause calls its Session method on every path (no pre-filtering); the data of an Rread is a buffer made for that request; error replies carry err.Error() or the Rerror itself (also through helpers). Replies reach the writer only through the serve loop (channels resolved to their make); every exit of the handler goroutine has offered its completion; the Tflush clause removes the flushed entry (rules shared with C07); an error that is a MessageRerror by value or by pointer is passed through.",
+ "C07": "Also: the handler runs under the request's own cancellable context (the one whose cancel func is in the tag table). Replies reach the writer only through the serve loop's table-guarded sends (nothing re-queues a frame).",
+ "C08": "Also: a fid's File is recorded only after the producing call is known to have succeeded; no reservation is left in the table and no fid lock is still held when an operation returns. IsDir tests the QTDIR bit; a fid found in the table whose entry was released does not stay in the table.",
+ "C09": "Also evaluates the C05 and C06 rule sets, buffered reply channels, the write-failure rules, the ReadFcall rules (a frame of exactly msize is accepted), reply typing in every client method, the codec-grammar rules and the fresh-reply-buffer rule. A client method answers without a round trip only a walk of more than 16 names; every round trip runs under the caller's context; deadlines re-armed before every I/O step.",
+ "C10": "Also: the write-side partition and the read-side overflow/frame rules (shared with C02/C03); the server answers its own msize only on an edge implying ch.MSize() <= the client's proposal; the client's SetMSize rules also through extracted helpers. The client ends with min(proposed, answered): every way to a successful negotiation installs the answer or implies ch.MSize() <= answer; the channel's buffered reader/writer are never replaced.",
  "C11": "Also: a failed read/write is retried only for a transient net.Error (path enumeration); the connection deadline is re-armed before every I/O step; close() only on termination channels; no fid lock is still held when a session operation returns (Stop takes every fid's lock).",
- "C12": "Also: a failed request write does not end the owner loop; the reader retries only transient net errors; deadlines re-armed before every I/O step; every client method reports success only on the ok edge of a checked assertion of the reply to its R type; close() only on termination channels.",
- "C13": "Also: the reservation helper returns a non-nil *SFid only on the not-loaded edge; an SFid is locked before it is published; every access of the unbind helper to the fid's state is under the fid's lock.",
- "C14": "Also: an SFid is locked before LoadOrStore publishes it; after a release the entry is cleared (Ent = nil) before the fid lock is dropped on every path.",
- "C15": "Also through validating predicate helpers and helper parameters (classes computed from all call sites).",
- "C16": "Also: ToWalk succeeds only on paths implying NormalizePath's count >= 0 (== 0 for absolute paths); NormalizePath pops only an ordinary element (cursor > count of kept leading '..') and returns fresh storage.",
- "C17": "Also: the client marks a listing finished only on EOF, an empty read or an empty batch; each open directory has its own chunk buffer; the Readdir of a created directory is opened on the entry Create returned; the iterator may be a closure or a bound method.",
- "C18": "Also: data placement in FileEnt.Read/Write (where bytes are taken from / put, as affine slice bounds, overflow-sound for 64-bit offsets); links inserted only when absent and deleted only when present, success reported only after the change; children cleared only after the decref loop; entries of the walk result placed into the new handle's chain come from ans[ndel:].",
- "C19": "Also: every FileRef literal takes Info from a successful os.Stat of its own path; each operation changes the host only through the host call of the same meaning (Remove→os.Remove, WStat→Chmod/Chown/rename/os.Truncate, Create→Mkdir/OpenFile, Open→OpenFile, Write→WriteAt).",
+ "C12": "Also: a failed request write does not end the owner loop; the reader retries only transient net errors; deadlines re-armed before every I/O step; every client method reports success only on the ok edge of a checked assertion of the reply to its R type; close() only on termination channels. Also evaluates the C05 tag-multiplexing rules (a reply releases exactly its own request); every round trip runs under the caller's own context.",
+ "C13": "Also: the reservation helper returns a non-nil *SFid only on the not-loaded edge; an SFid is locked before it is published; every access of the unbind helper to the fid's state is under the fid's lock. The fid table is read only by the getter returning bound fids, written only through LoadOrStore in the placeholder constructor, emptied only by the unbind-release helper; a looked-up fid whose entry was released does not stay in the table.",
+ "C14": "Also: an SFid is locked before LoadOrStore publishes it; after a release the entry is cleared (Ent = nil) before the fid lock is dropped on every path. A fid is looked up and unbound in one atomic step (table/access rules shared with C08).",
+ "C15": "Also through validating predicate helpers and helper parameters (classes computed from all call sites). The export root is stored cleaned (never empty).",
+ "C16": "Also: ToWalk succeeds only on paths implying NormalizePath's count >= 0 (== 0 for absolute paths); NormalizePath pops only an ordinary element (cursor > count of kept leading '..') and returns fresh storage. ToWalk hands NormalizePath the names of the path as given (only '/' trimmed, nothing cleaned beforehand).",
+ "C17": "Also: the client marks a listing finished only on EOF, an empty read or an empty batch; each open directory has its own chunk buffer; the Readdir of a created directory is opened on the entry Create returned; the iterator may be a closure or a bound method. The finished flag of mkNext1 is set only on the success edge of a refill that returned no entries; session.Read calls File.Read under the fid's lock (Readdir has no lock of its own); IsDir tests the QTDIR bit.",
+ "C18": "Also: data placement in FileEnt.Read/Write (where bytes are taken from / put, as affine slice bounds, overflow-sound for 64-bit offsets); links inserted only when absent and deleted only when present, success reported only after the change; children cleared only after the decref loop; entries of the walk result placed into the new handle's chain come from ans[ndel:]. FileHandle.Remove releases the handle's references on every exit; FileEnt.Data is only ever nil, made, appended to, or a re-slice of itself.",
+ "C19": "Also: every FileRef literal takes Info from a successful os.Stat of its own path; each operation changes the host only through the host call of the same meaning (Remove→os.Remove, WStat→Chmod/Chown/rename/os.Truncate, Create→Mkdir/OpenFile, Open→OpenFile, Write→WriteAt). Open opens the entry's own path with exactly oflags(mode) (also through a helper); every entry handed out is the result of newRef or a fresh literal; atime reads the Stat_t access-time field; the rename target is joined to path.Dir of the entry's own path.",
  "C20": "Also: client.Walk's Twalk carries exactly the caller's names; Attach/Auth hand out only entries whose fid was allocated and bound in that call; every return of newFid is the value just stored by the increment; NormalizePath's classes and fresh result.",
 }
 for _pid in list(CLAIMS):
